@@ -1,0 +1,370 @@
+//go:build verif
+
+package jsonldinternal
+
+// Verification hooks (build tag `verif` only; nothing here is compiled into a normal build).
+//
+// VerifContext wraps an active context so that the Context Processing and IRI Expansion algorithms
+// can be driven one call at a time and their results chained. Token renders every field of a context
+// (and of each term definition) canonically:
+//
+//	ctx   := core ('|' core)*                       the context, then its chain of previous contexts
+//	core  := 'C' piri ostr piri eiri ostr ostr ostr '[' (hex '=' tdef)* ']'
+//	         base, base value, original base, vocabulary mapping, its value, default language,
+//	         default direction, term definitions sorted by term (bytes)
+//	tdef  := eiri oostr bool bool bool ostr ojson olist oostr ostr oostr ostr eiri ostr
+//	         IRI mapping, its value, prefix, protected, reverse, base URL (String), context, container,
+//	         direction, index, language, nest, type mapping, its value
+//	eiri  := '-' (nil) | 'N' | 'K' hex ';' | 'I' hex ';' | 'B' hex ';' | 'R' json
+//	piri  := '-' | 'P' hex ';' bool bool          String(), forceFragment, isOpaque
+//	ostr  := '-' | 'x' hex ';'      oostr := '-' | 'n' | 'x' hex ';'      bool := '0' | '1'
+//	ojson := '-' | 'j' json         olist := '-' | 'L' (hex ';')* '.'
+//	json  := 'n' | 't' | 'f' | 'i' ['-'] digits ';' | 'd' hex ';' | 's' hex ';' | '[' json* ']'
+//	       | '{' (hex ';' json)* '}'                members sorted by name (bytes)
+//
+// A JSON number is rendered 'd' hex("1.1E0") when its value is 1.1, 'i' when it is integral with
+// an absolute value of at most 2^53, and 'd' with strconv's shortest 'E' form otherwise.
+
+import (
+	"context"
+	"encoding/hex"
+	"errors"
+	"math"
+	"slices"
+	"strconv"
+	"strings"
+
+	"github.com/dpb587/inspectjson-go/inspectjson"
+	"github.com/dpb587/rdfkit-go/encoding/jsonld/jsonldtype"
+	"github.com/dpb587/rdfkit-go/iri"
+)
+
+type VerifContext struct {
+	c *Context
+}
+
+// VerifNewContext builds the initial active context the way Expand does.
+func VerifNewContext(processingMode string, baseURL *string) (*VerifContext, error) {
+	var baseIRI *iri.ParsedIRI
+
+	if baseURL != nil {
+		var err error
+
+		baseIRI, err = iri.ParseIRI(*baseURL)
+		if err != nil {
+			return nil, err
+		}
+	}
+
+	return &VerifContext{
+		c: &Context{
+			BaseURL:         baseIRI,
+			OriginalBaseURL: baseIRI,
+			TermDefinitions: map[string]*TermDefinition{},
+			_processor: &contextProcessor{
+				ctx:                       context.Background(),
+				processingMode:            processingMode,
+				dereferencedDocumentByIRI: map[string]dereferencedDocument{},
+				documentLoader: jsonldtype.DocumentLoaderFunc(func(ctx context.Context, url string, opts jsonldtype.DocumentLoaderOptions) (jsonldtype.RemoteDocument, error) {
+					return jsonldtype.RemoteDocument{}, errors.New("no document loader configured")
+				}),
+			},
+		},
+	}, nil
+}
+
+type VerifContextOptions struct {
+	BaseURL               *string
+	OverrideProtected     bool
+	Propagate             bool
+	ValidateScopedContext bool
+}
+
+// VerifProcessContext runs the Context Processing algorithm. code is empty on success, the JSON-LD
+// error code of the error, or "plain:" followed by the message (up to the first colon) of an error
+// which is not a jsonldtype.Error.
+func VerifProcessContext(active *VerifContext, localContext inspectjson.Value, opts VerifContextOptions) (res *VerifContext, code string, err error) {
+	var baseIRI *iri.ParsedIRI
+
+	if opts.BaseURL != nil {
+		baseIRI, err = iri.ParseIRI(*opts.BaseURL)
+		if err != nil {
+			return nil, "hook:base", err
+		}
+	}
+
+	result, err := algorithmContextProcessing{
+		ActiveContext:         active.c,
+		LocalContext:          localContext,
+		BaseURL:               baseIRI,
+		OverrideProtected:     opts.OverrideProtected,
+		Propagate:             opts.Propagate,
+		ValidateScopedContext: opts.ValidateScopedContext,
+	}.Call()
+	if err != nil {
+		return nil, verifErrorCode(err), err
+	}
+
+	return &VerifContext{c: result}, "", nil
+}
+
+// VerifExpandIRI runs the IRI Expansion algorithm without a local context.
+func VerifExpandIRI(active *VerifContext, value inspectjson.Value, documentRelative, vocab bool) (expanded string, code string, err error) {
+	res, err := algorithmIRIExpansion{
+		activeContext:    active.c,
+		value:            value,
+		documentRelative: documentRelative,
+		vocab:            vocab,
+	}.Call()
+	if err != nil {
+		return "", verifErrorCode(err), err
+	}
+
+	sb := &strings.Builder{}
+	verifExpandedIRI(sb, res)
+
+	return sb.String(), "", nil
+}
+
+func verifErrorCode(err error) string {
+	if jerr, ok := err.(jsonldtype.Error); ok {
+		return string(jerr.Code)
+	}
+
+	msg, _, _ := strings.Cut(err.Error(), ":")
+
+	return "plain:" + msg
+}
+
+// Token renders the context.
+func (v *VerifContext) Token() string {
+	sb := &strings.Builder{}
+
+	for c := v.c; c != nil; c = c.PreviousContext {
+		if c != v.c {
+			sb.WriteByte('|')
+		}
+
+		verifContextCore(sb, c)
+	}
+
+	return sb.String()
+}
+
+// VerifJSON renders a JSON value.
+func VerifJSON(v inspectjson.Value) string {
+	sb := &strings.Builder{}
+	verifJSON(sb, v)
+
+	return sb.String()
+}
+
+func verifContextCore(sb *strings.Builder, c *Context) {
+	sb.WriteByte('C')
+	verifParsedIRI(sb, c.BaseURL)
+	verifValueString(sb, c.BaseURLValue)
+	verifParsedIRI(sb, c.OriginalBaseURL)
+	verifExpandedIRI(sb, c.VocabularyMapping)
+	verifValueString(sb, c.VocabularyMappingValue)
+
+	if c.DefaultLanguageValue != nil {
+		verifString(sb, c.DefaultLanguageValue.Value)
+	} else {
+		sb.WriteByte('-')
+	}
+
+	if c.DefaultDirectionValue != nil {
+		verifString(sb, c.DefaultDirectionValue.Value)
+	} else {
+		sb.WriteByte('-')
+	}
+
+	terms := make([]string, 0, len(c.TermDefinitions))
+	for term := range c.TermDefinitions {
+		terms = append(terms, term)
+	}
+	slices.Sort(terms)
+
+	sb.WriteByte('[')
+	for _, term := range terms {
+		sb.WriteString(hex.EncodeToString([]byte(term)))
+		sb.WriteByte('=')
+		verifTermDefinition(sb, c.TermDefinitions[term])
+	}
+	sb.WriteByte(']')
+}
+
+func verifTermDefinition(sb *strings.Builder, d *TermDefinition) {
+	if d == nil {
+		sb.WriteByte('!')
+		return
+	}
+
+	verifExpandedIRI(sb, d.IRI)
+	verifValueString(sb, d.IRIValue)
+	verifBool(sb, d.Prefix)
+	verifBool(sb, d.Protected)
+	verifBool(sb, d.ReverseProperty)
+
+	if d.BaseURL != nil {
+		verifString(sb, d.BaseURL.String())
+	} else {
+		sb.WriteByte('-')
+	}
+
+	if d.Context != nil {
+		sb.WriteByte('j')
+		verifJSON(sb, d.Context)
+	} else {
+		sb.WriteByte('-')
+	}
+
+	if len(d.ContainerMapping) > 0 {
+		sb.WriteByte('L')
+		for _, c := range d.ContainerMapping {
+			sb.WriteString(hex.EncodeToString([]byte(c)))
+			sb.WriteByte(';')
+		}
+		sb.WriteByte('.')
+	} else {
+		sb.WriteByte('-')
+	}
+
+	verifValueString(sb, d.DirectionMappingValue)
+
+	if d.IndexMapping != nil {
+		verifString(sb, *d.IndexMapping)
+	} else {
+		sb.WriteByte('-')
+	}
+
+	verifValueString(sb, d.LanguageMappingValue)
+
+	if d.NestValue != nil {
+		verifString(sb, *d.NestValue)
+	} else {
+		sb.WriteByte('-')
+	}
+
+	verifExpandedIRI(sb, d.TypeMapping)
+	verifValueString(sb, d.TypeMappingValue)
+}
+
+func verifBool(sb *strings.Builder, b bool) {
+	if b {
+		sb.WriteByte('1')
+	} else {
+		sb.WriteByte('0')
+	}
+}
+
+func verifString(sb *strings.Builder, s string) {
+	sb.WriteByte('x')
+	sb.WriteString(hex.EncodeToString([]byte(s)))
+	sb.WriteByte(';')
+}
+
+// verifValueString renders a field which holds nil, a null or a string.
+func verifValueString(sb *strings.Builder, v inspectjson.Value) {
+	switch t := v.(type) {
+	case nil:
+		sb.WriteByte('-')
+	case inspectjson.NullValue:
+		sb.WriteByte('n')
+	case inspectjson.StringValue:
+		verifString(sb, t.Value)
+	default:
+		sb.WriteByte('?')
+	}
+}
+
+func verifParsedIRI(sb *strings.Builder, p *iri.ParsedIRI) {
+	if p == nil {
+		sb.WriteByte('-')
+		return
+	}
+
+	forceFragment, isOpaque := iri.VerifFlags(p)
+
+	sb.WriteByte('P')
+	sb.WriteString(hex.EncodeToString([]byte(p.String())))
+	sb.WriteByte(';')
+	verifBool(sb, forceFragment)
+	verifBool(sb, isOpaque)
+}
+
+func verifExpandedIRI(sb *strings.Builder, e ExpandedIRI) {
+	switch t := e.(type) {
+	case nil:
+		sb.WriteByte('-')
+	case ExpandedIRIasNil:
+		sb.WriteByte('N')
+	case ExpandedIRIasKeyword:
+		sb.WriteByte('K')
+		sb.WriteString(hex.EncodeToString([]byte(t)))
+		sb.WriteByte(';')
+	case ExpandedIRIasIRI:
+		sb.WriteByte('I')
+		sb.WriteString(hex.EncodeToString([]byte(t)))
+		sb.WriteByte(';')
+	case ExpandedIRIasBlankNode:
+		sb.WriteByte('B')
+		sb.WriteString(hex.EncodeToString([]byte(t)))
+		sb.WriteByte(';')
+	case ExpandedIRIasRawValue:
+		sb.WriteByte('R')
+		verifJSON(sb, t.Value)
+	default:
+		sb.WriteByte('?')
+	}
+}
+
+func verifJSON(sb *strings.Builder, v inspectjson.Value) {
+	switch t := v.(type) {
+	case inspectjson.NullValue:
+		sb.WriteByte('n')
+	case inspectjson.BooleanValue:
+		if t.Value {
+			sb.WriteByte('t')
+		} else {
+			sb.WriteByte('f')
+		}
+	case inspectjson.NumberValue:
+		switch {
+		case t.Value == 1.1:
+			sb.WriteString("d" + hex.EncodeToString([]byte("1.1E0")) + ";")
+		case t.Value == math.Trunc(t.Value) && math.Abs(t.Value) <= 9007199254740992:
+			sb.WriteByte('i')
+			sb.WriteString(strconv.FormatFloat(t.Value, 'f', 0, 64))
+			sb.WriteByte(';')
+		default:
+			sb.WriteString("d" + hex.EncodeToString([]byte(strconv.FormatFloat(t.Value, 'E', -1, 64))) + ";")
+		}
+	case inspectjson.StringValue:
+		sb.WriteByte('s')
+		sb.WriteString(hex.EncodeToString([]byte(t.Value)))
+		sb.WriteByte(';')
+	case inspectjson.ArrayValue:
+		sb.WriteByte('[')
+		for _, item := range t.Values {
+			verifJSON(sb, item)
+		}
+		sb.WriteByte(']')
+	case inspectjson.ObjectValue:
+		names := make([]string, 0, len(t.Members))
+		for name := range t.Members {
+			names = append(names, name)
+		}
+		slices.Sort(names)
+
+		sb.WriteByte('{')
+		for _, name := range names {
+			sb.WriteString(hex.EncodeToString([]byte(name)))
+			sb.WriteByte(';')
+			verifJSON(sb, t.Members[name].Value)
+		}
+		sb.WriteByte('}')
+	default:
+		sb.WriteByte('?')
+	}
+}
